@@ -275,6 +275,22 @@ def one_family(ctx, imp, tag):
                                       dict(w, order=list(order[:pos + 1]), unmerged=g,
                                            diff=canon.diff(sem_graph(before or {'nodes': {}, 'edges': {}}), sem_graph(back or {'nodes': {}, 'edges': {}}))))
                         return
+                    # ... also as seen through the documented getter (a delegation property that un-merging could only blank reads as unset)
+                    ctx.count('clause:delegations-readable-after-unmerge')
+                    for nid in sorted((back or {'nodes': {}})['nodes']):
+                        for prop in ('LabelDelegations', 'CapacityDelegations'):
+                            try:
+                                v = cbm.get_node_json_property_as_object(node_id=nid, prop_name=prop)
+                            except Exception as e:
+                                ctx.violation('C14/delegations-unreadable-after-unmerge', 'merge followed by unmerge restores the previous combined model '
+                                              '(reading the delegations of a node that lost them must say "none", not fail)',
+                                              dict(w, unmerged=g, node=nid, prop=prop, error=f'{type(e).__name__}: {str(e)[:160]}'))
+                                return
+                            exp = (before or {'nodes': {}})['nodes'].get(nid, {}).get(prop)
+                            if (v in (None, {})) != (exp in (None, '', 'None', '{}')):
+                                ctx.violation('C14/delegations-differ-after-unmerge', 'merge followed by unmerge restores the previous combined model',
+                                              dict(w, unmerged=g, node=nid, prop=prop, before=exp, read_after=v))
+                                return
                     cbm.merge_adm(adm=by_id[g])
             results[order] = sem_graph(canon.graph_snapshot(imp, cbm.graph_id))
         except Exception as e:
